@@ -528,7 +528,7 @@ pub fn eval_unit_name(
                     .collect::<BTreeMap<_, _>>();
                 Ok((
                     crate::algorithms::btree_merge(&left_unit, &right_unit, |a, b| {
-                        let sum = a.saturating_add(*b);
+                        let sum = a.saturating_add(*b).max(-isize::MAX);
                         if sum != 0 {
                             Some(sum)
                         } else {
@@ -580,7 +580,8 @@ pub fn eval_unit_name(
                     left_unit
                         .into_iter()
                         .filter_map(|(k, v)| {
-                            let v = v.saturating_mul(right as isize);
+                            // stays clear of isize::MIN so that it can be negated
+                            let v = v.saturating_mul(right as isize).max(-isize::MAX);
                             if v != 0 {
                                 Some((k, v))
                             } else {
@@ -638,7 +639,7 @@ pub fn eval_unit_name(
                     let (b, bv) = eval_unit_name(ctx, b)?;
                     Ok((
                         crate::algorithms::btree_merge(&acc, &b, |a, b| {
-                            let sum = a.saturating_add(*b);
+                            let sum = a.saturating_add(*b).max(-isize::MAX);
                             if sum != 0 {
                                 Some(sum)
                             } else {
